@@ -1,4 +1,4 @@
-import LyModel.Merge.LemmasPath
+import LyModel.Merge.LemmasKeep2
 import LyModel.Merge.LemmasDestruct
 /-!
 # C14 — merging and duplicating trees preserve content (property theorems)
@@ -156,6 +156,32 @@ example :
     beqL exSrc [cS] = true ∧ (descend exS [cS, lS, vS] exSrc).map (·.val) = some [121] ∧
       (descend exS [cS, lS, vS] exT).map (·.val) = some [120] ∧
       (descend exS [cS, lS, vS] (merge exS {} exT exSrc)).map (·.val) = some [121] := by
+  decide
+
+/-! ## the result keeps what the source does not touch -/
+
+/-- **merge_keeps_untouched_target**: take any node `y` of the target, addressed by the chain of target nodes leading to
+it (no list keys, no key-less list / state leaf-list instances on the way).  If the source does not contain that path
+(`descend … s = none`: at some level it has no node of that schema node and keys / value), then the same path leads,
+in the result, to `y` itself — the whole subtree with its values, flags, metadata and order, unchanged. -/
+theorem merge_keeps_untouched_target (S : Schema) (o : MergeOpts) (t s : List DNode) (ht : wfForest S t = true)
+    (hs : wfForest S s = true) (hd : noDupInstL S s = true) (chain : List DNode) (y : DNode)
+    (hc : IsChain S chain false t) (hcd : ∀ c ∈ chain, S.isDupInst c.sid = false ∧ S.isKey c.sid = false)
+    (hy : chain.getLast? = some y) (hn : descend S chain s = none) :
+    descend S chain (merge S o t s) = some y := by
+  obtain ⟨ht1, ht2, ht3, _⟩ := wfSibs_parts ht
+  obtain ⟨_, hs2, _⟩ := wfSibs_parts hs
+  exact keep_chain S o chain false s [] false { cur := t } y ht1 ht2 ht3 (srcOk_of_wf hs hd) hs2 hc hcd hy hn
+
+/-- non-vacuity: the source has `c/ll = 1` and `c/ll = 3` but not `c/ll = 2`, nor anything below `c/ul`; the target's
+`ll = 2` and `ul = z` are where they were -/
+example :
+    let cT := DNode.inner 0 {} [] [.term 1 { dflt := true } [] [100], .term 2 {} [] [49], .term 2 {} [] [50],
+      .inner 3 {} [] [.term 4 {} [] [97], .term 5 {} [] [120]], .term 6 {} [] [122], .term 6 {} [] [121]]
+    let ll2 := DNode.term 2 {} [] [50]
+    beqL exT [cT] = true ∧ (descend exS [cT, ll2] exT).map (·.val) = some [50] ∧
+      (descend exS [cT, ll2] exSrc).isNone = true ∧
+      (descend exS [cT, ll2] (merge exS {} exT exSrc)).map (·.val) = some [50] := by
   decide
 
 /-! ## dup -/
